@@ -7,6 +7,7 @@ package tree
 import (
 	"bytes"
 	_ "embed"
+	"errors"
 	"fmt"
 	"go/parser"
 	"go/printer"
@@ -21,6 +22,7 @@ import (
 	"sync"
 	"text/template"
 	"unicode"
+	"unicode/utf8"
 
 	"github.com/pointlander/peg/set"
 )
@@ -318,6 +320,7 @@ type Tree struct {
 	inline, _switch, Ast bool
 	Strict               bool
 	werr                 error
+	errs                 []error // errors found while building the tree, returned by Compile
 
 	Generator       string
 	RuleNames       []*node
@@ -378,7 +381,10 @@ func (t *Tree) AddDoubleCharacter(text string) {
 }
 
 func (t *Tree) AddHexaCharacter(text string) {
-	hexa, _ := strconv.ParseInt(text, 16, 32)
+	hexa, err := strconv.ParseInt(text, 16, 32)
+	if err != nil || !utf8.ValidRune(rune(hexa)) {
+		t.errs = append(t.errs, fmt.Errorf("escape \\0x%s is not a Unicode code point", text))
+	}
 	t.PushFront(&node{Type: TypeCharacter, string: string(rune(hexa))})
 }
 
@@ -600,6 +606,9 @@ func (t *Tree) link(countsForRule *[TypeLast]uint, n *node, counts *[TypeLast]ui
 }
 
 func (t *Tree) Compile(file string, args []string, out io.Writer) (err error) {
+	if err := errors.Join(t.errs...); err != nil {
+		return err
+	}
 	t.AddImport("fmt")
 	if t.Ast {
 		t.AddImport("io")
